@@ -467,3 +467,117 @@ def before(b, x, y):
     if xb == yb:
         return xi < yi
     return b.dominates(xb, yb)
+
+
+# ----------------------------------------------------------------------------- path feasibility under one boolean flag
+
+def bool_flags(b):
+    """bool locals that are only ever assigned constants (loop 'first' flags and the like): {local: [(bb, idx, value)]}."""
+    out = {}
+    for l in range(len(b.locals)):
+        if b.lty(l) != "bool" or l == 0 or l <= b.argc:
+            continue
+        ds = b.defs.get(l, [])
+        if not ds or l not in b.names:
+            continue
+        vals = []
+        ok = True
+        for d in ds:
+            if d[2] != "rv" or d[3]["k"] != "use":
+                ok = False
+                break
+            k = op_const(d[3]["o"])
+            if k is None or const_int(k) is None:
+                ok = False
+                break
+            vals.append((d[0], d[1], bool(const_int(k))))
+        if ok:
+            out[l] = vals
+    return out
+
+
+def _switch_on_flag(b, bb, flag):
+    t = b.term(bb)
+    if t["k"] != "switch" or t["dty"] != "bool":
+        return None
+    o = b.resolve_copy(t["d"])
+    p = op_place(o)
+    if p is not None and not p["p"] and p["l"] == flag:
+        f = [x for v, x in t["tg"] if v == "0"]
+        return (f[0] if f else None, t["else"])
+    return None
+
+
+def flag_reach(b, flag, assigns, start_bb, avoid=()):
+    """blocks reachable from the END of start_bb when the value of `flag` is tracked (edges contradicted by the flag are
+    not followed).  The value at start is computed by a forward pass from the entry."""
+    amap = {}
+    for bb, idx, v in assigns:
+        amap.setdefault(bb, []).append((idx, v))
+    def out_val(bb, vin):
+        v = vin
+        for idx, val in sorted(amap.get(bb, [])):
+            v = val
+        return v
+    # forward dataflow: value at block entry (None = unknown/top, "bot" = unreached)
+    vin = {0: None}
+    work = [0]
+    def join(a, c):
+        return a if a == c else None
+    while work:
+        x = work.pop()
+        vo = out_val(x, vin[x])
+        sw = _switch_on_flag(b, x, flag)
+        for s in b.succ[x]:
+            v = vo
+            if sw is not None:
+                if s == sw[0] and s != sw[1]:
+                    v = False if vo is None else vo
+                    if vo is True:
+                        continue
+                elif s == sw[1] and s != sw[0]:
+                    v = True if vo is None else vo
+                    if vo is False:
+                        continue
+            if s not in vin:
+                vin[s] = v
+                work.append(s)
+            else:
+                nv = join(vin[s], v)
+                if nv != vin[s]:
+                    vin[s] = nv
+                    work.append(s)
+    if start_bb not in vin:
+        return set()
+    avoid = set(avoid)
+    seen = set()
+    res = set()
+    st = [(start_bb, out_val(start_bb, vin[start_bb]), True)]
+    while st:
+        x, v, first = st.pop()
+        if not first:
+            if (x, v) in seen or x in avoid:
+                continue
+            seen.add((x, v))
+            res.add(x)
+            v = out_val(x, v)
+        sw = _switch_on_flag(b, x, flag)
+        for s in b.succ[x]:
+            nv = v
+            if sw is not None and v is not None:
+                if s == sw[0] and s != sw[1] and v is True:
+                    continue
+                if s == sw[1] and s != sw[0] and v is False:
+                    continue
+            st.append((s, nv, False))
+    return res
+
+
+def feasible_reach(b, start_bb, target_bb, avoid=()):
+    """can target be reached from the end of start_bb avoiding `avoid`, on a path that no constant-only bool flag contradicts?"""
+    if not b.can_reach(start_bb, target_bb, avoid=avoid):
+        return False
+    for flag, assigns in bool_flags(b).items():
+        if target_bb not in flag_reach(b, flag, assigns, start_bb, avoid):
+            return False
+    return True
